@@ -32,6 +32,14 @@ CHECKS = [
              "directions: value(Linearization) != plain value, Jacobian(dx) != true directional derivative, "
              "<y,J dx> != <J^H y,dx>. Bounded by tree set and size.",
      "design_ref": "DESIGN.md 4/C03"},
+    {"property_id": "C11", "engine": "A", "category": "other", "technique": TECH_A + "; oracle = documented -log pdf on dual numbers and closed-form Fisher matrices",
+     "note": NOTE_A + " log/exp/arctan uninterpreted (axiom instances in evidence); integer data sets are concrete.",
+     "text": "Bounded symbolic verification of all eight classic likelihood energies and their scaled, model-composed "
+             "(linear, exp), summed, Hamiltonian and sample-averaged versions (86 scenarios, 2 pixels): for ALL parameter "
+             "values in the support, data and directions z3 refutes value != documented negative log-probability, "
+             "gradient != exact derivative, metric(dx) != closed-form Fisher information, and J^T J != metric for "
+             "get_transformation().",
+     "design_ref": "DESIGN.md 4/C11"},
 ]
 
 ALL = [f"C{i:02d}" for i in range(1, 37)]
